@@ -156,7 +156,12 @@ def gen_built(rng):
         charts.append(dict(type=typ, desc=rng.choice(DESC_POOL), diff=rng.choice(DIFFS), meter=rng.randrange(1, 36), radar=rng.choice(RADARS), objects=objs))
     header = {attr: rng.choice(TEXT_POOL) for attr in TEXT_TAGS.values() if attr not in ("bg_changes", "fg_changes", "display_bpm")}
     header["display_bpm"] = rng.choice(("", "180", "*"))
-    return dict(t0_ms=rng.choice(T0_POOL), tempo=tempo, charts=charts, header=header, sample_start=rng.choice(SAMPLE_MS), sample_length=rng.choice(SAMPLE_MS), on_measure=on_measure, contrast=contrast)
+    spec = dict(t0_ms=rng.choice(T0_POOL), tempo=tempo, charts=charts, header=header, sample_start=rng.choice(SAMPLE_MS), sample_length=rng.choice(SAMPLE_MS), on_measure=on_measure, contrast=contrast)
+    if on_measure and len(tempo) > 1 and rng.random() < 0.3:
+        order = list(range(len(tempo)))
+        rng.shuffle(order)
+        spec["tempo_row_order"] = order
+    return spec
 
 
 def build_mapset(spec):
@@ -189,7 +194,12 @@ def build_mapset(spec):
                     row["length"] = ms_of(p + ln) - ms_of(p)
                 rows.append(row)
             setattr(m, kind, cls.from_dict(rows))
-        m.bpms = SMBpmList.from_dict([dict(offset=ms_of(b), bpm=float(v)) for b, v in tempo])
+        metros = spec.get("metronomes") or [4] * len(tempo)
+        bpm_rows = [dict(offset=ms_of(b), bpm=float(v), metronome=float(metros[i])) for i, (b, v) in enumerate(tempo)]
+        order = spec.get("tempo_row_order")
+        if order and len(order) == len(bpm_rows):
+            bpm_rows = [bpm_rows[i] for i in order]  # a chart is a set of timed objects: rows in any order
+        m.bpms = SMBpmList.from_dict(bpm_rows)
         sms.maps.append(m)
     for attr, val in spec["header"].items():
         setattr(sms, attr, val)
